@@ -91,7 +91,8 @@ def gen(rng, tier):
             p = [rng.pick(vs), [rng.pick(vs + ts) for _ in range(rng.pick([0, 1, 2, 2, 3]))]]
             if p not in prods:
                 prods.append(p)
-        return {"kind": "text", "vars": vs, "terms": ts, "prods": prods}
+        return {"kind": "text", "vars": vs, "terms": ts, "prods": prods,
+                "start": "S" if rng.chance(0.7) else rng.pick(vs)}
     toks = ["a", "b", "c", "S", "A", "B"]
     heads = ["S"] + rng.sample(["A", "B"], rng.randint(0, 2))
     lines = []
@@ -293,17 +294,18 @@ def _run_text(case, out):
     from pyformlang.cfg import CFG, Variable, Terminal, Production
     vs = case["vars"]
     ps = [Production(Variable(h), [Variable(x) if x in vs else Terminal(x) for x in b]) for h, b in case["prods"]]
-    g = CFG(start_symbol=Variable("S"), productions=set(ps))
-    ref = MC.Cfg(("V", "S"), [(("V", h), tuple(("V", x) if x in vs else ("T", x) for x in b))
-                              for h, b in case["prods"]])
+    st = case.get("start", "S")
+    g = CFG(start_symbol=Variable(st), productions=set(ps))
+    ref = MC.Cfg(("V", st), [(("V", h), tuple(("V", x) if x in vs else ("T", x) for x in b))
+                             for h, b in case["prods"]])
     txt = out.call("to_text", g.to_text)
     if txt is FAILED:
         return
-    back = out.call("from_text", CFG.from_text, txt, Variable("S"))
+    back = out.call("from_text", CFG.from_text, txt, Variable(st))
     if back is FAILED:
         return
     from gens.cfg import lib_sym
-    rb = MC.Cfg(("V", "S"), [((lib_sym(p.head)[0], str(p.head.value)),
+    rb = MC.Cfg(("V", st), [((lib_sym(p.head)[0], str(p.head.value)),
                               tuple((lib_sym(x)[0], str(x.value)) for x in p.body)) for p in back.productions])
     want, got = ref.words_upto(4), rb.words_upto(4)
     if want != got:
